@@ -755,6 +755,11 @@ func (l *segment) empty() bool {
 func (l *segment) close() error {
 	l.mu.Lock()
 	defer l.mu.Unlock()
+	// Appends made while many writers were active are only buffered; they have
+	// been acknowledged, so they must reach the file before it is closed.
+	if err := l.flush(); err != nil {
+		return err
+	}
 	if err := l.file.Close(); err != nil {
 		return err
 	}
